@@ -268,4 +268,38 @@ def GoodNumbering (rd : RegionData) (L : Int) (areas : List (Int × Loc)) (ν : 
   (∀ a b la lb m m', (a, la) ∈ areas → (b, lb) ∈ areas → dictGet ν a = .ok m → dictGet ν b = .ok m' →
     ((m ≤ m' ↔ keyLe (positionKey rd L a la) (positionKey rd L b lb) = true) ∧ (m = m' → a = b)))
 
+/-! ### the numbers written follow the order in which a loaded record numbers the areas -/
+
+/-- among the features `fs`, those of type `type` that a loaded record orders strictly before another
+    carry the smaller number (`num` reads a feature's own number) — the order part of `numberedAsLoaded` -/
+def FollowsLoadOrder (type : String) (num : BioFeature → Option Int) (fs : List BioFeature) : Prop :=
+  ∀ g1 ∈ fs, ∀ g2 ∈ fs, g1.type = type → g2.type = type → ∀ m1 m2, num g1 = some m1 → num g2 = some m2 →
+    pairLt (loadKey g1.loc) (loadKey g2.loc) = true → m1 < m2
+
+/-- the shape of an area's location: one forward part, or a forward pair over the origin -/
+def areaShape (L : Int) : Loc → Bool
+  | .simple p => p.strand == .fwd
+  | .compound [a, b] =>
+    a.strand == .fwd && b.strand == .fwd && decide (a.hi = L) && decide (b.lo = 0) && decide (0 < b.hi) &&
+    decide (b.hi ≤ a.lo) && decide (a.lo < L)
+  | _ => false
+
+def protoAreas (rd : RegionData) : List (Int × Loc) := (protoDict rd).map fun kv => (kv.1, kv.2.loc)
+
+/-- the area features of kind `type` in the record carry the location their `RegionData` entry (same number) has -/
+def linkedKind (type : String) (num : BioFeature → Option Int) (areas : List (Int × Loc)) (rec : BioRecord) : Bool :=
+  rec.features.all fun f =>
+    f.type != type ||
+    match num f with
+    | none => true
+    | some n => areas.all fun a => a.1 != n || a.2 == f.loc
+
+/-- the two views of the region's areas handed to `write_to_genbank` (the record's features, `RegionData`) agree,
+    and area locations have the shape of areas -/
+def linked (rd : RegionData) (rec : BioRecord) : Bool :=
+  linkedKind "protocluster" (·.q.protoNumber) (protoAreas rd) rec &&
+  linkedKind "cand_cluster" (·.q.candNumber) (candDict rd) rec &&
+  linkedKind "subregion" (·.q.subNumber) (subDict rd) rec &&
+  (protoAreas rd ++ candDict rd ++ subDict rd).all fun a => areaShape rec.length a.2
+
 end ASV.RegionExtract
